@@ -103,6 +103,58 @@ def noise_session(rng, calls, name=b"dev"):
     return "noise none " + " ".join(ops), impl_line, problems
 
 
+def oversize_probe(rng, batch):
+    """-> (kind, detail).  kind: 'ok' (conforming frames, or a clean refusal), 'misframed' (the known shape of F9: one write whose
+    outer headers do not describe the frames), or another word for anything else (partial writes, a refusal that leaves the
+    cipher state advanced, ...)."""
+    psk = rng.randbytes(32)
+    resp = noisesim.Responder(psk, b"dev")
+    sess = noisesim.ImplSession(noisesim.b64(psk), None)
+    sess.op("made")
+    frames = noisesim.split_frames(sess.writes[0])
+    hs_frame, _ = resp.handshake_frames(frames[1][1:])
+    sess.op("data", resp.hello_frame() + hs_frame)
+    n0 = len(sess.writes)
+    evs = sess.op("write", batch)
+    raised = [e for e in evs if isinstance(e, str) and e.startswith("RAISE:")]
+    new = sess.writes[n0:]
+    if raised:
+        if new:
+            return "partial-write", f"raised {raised[0]} after {len(new)} transport write(s)"
+        # a refusal: the session must go on as if the call had not happened
+        n1 = len(sess.writes)
+        evs2 = sess.op("write", [(7, b"\x08\x01")])
+        after = sess.writes[n1:]
+        if [e for e in evs2 if isinstance(e, str) and e.startswith("RAISE:")] or len(after) != 1:
+            return "refusal-breaks-session", f"after the refused batch ({raised[0]}) an ordinary write_packets did not produce one write"
+        try:
+            fr = noisesim.split_frames(after[0])
+            pt = resp.decrypt_client_frame(fr[0])
+        except Exception:  # noqa: BLE001
+            return "nonce-after-refusal", (f"the batch was refused ({raised[0]}, nothing written) but the next ordinary frame does not authenticate "
+                                           f"under the next unused nonce {resp.recv_n}: the refusal consumed cipher state")
+        if pt[:2] != b"\x00\x07":
+            return "inner-after-refusal", "the frame written after a refused batch decrypts to something else"
+        return "ok", f"refused cleanly ({raised[0]})"
+    if len(new) != 1:
+        return "writes", f"{len(new)} transport writes for one write_packets call"
+    try:
+        fr = noisesim.split_frames(new[0])
+        ok = len(fr) == len(batch)
+    except ValueError as e:
+        return "misframed", f"the bytes written cannot be split into frames ({e}); nothing raised"
+    if not ok:
+        return "misframed", f"{len(fr)} frames for {len(batch)} packets; nothing raised"
+    for f, (ty, pl) in zip(fr, batch):
+        try:
+            pt = resp.decrypt_client_frame(f)
+        except Exception:  # noqa: BLE001
+            return "misframed", "a frame of the batch does not authenticate / is cut by its header; nothing raised"
+        if pt[4:] != pl:
+            return "misframed", "a frame of the batch carries another payload than the one supplied; nothing raised"
+    return "ok", "conforming frames"
+
+
 def flow_control_probe(kind, rng, ids):
     """A transport that signals back-pressure (pause_writing ... resume_writing) while batches are written: each write_packets
     call must still hand exactly one write to the transport before it returns, in call order."""
@@ -257,11 +309,19 @@ def run(rep, tier, seed):
         if il != ml:
             disagreements.append({"kind": "noise", "calls": [[(t, len(p)) for t, p in c] for c in calls][:10], "impl": il[:600], "model": ml[:600]})
 
-    # ---- known finding F9: oversize payload
-    line, impl_line, problems = noise_session(rng, [[(1, bytes(65516))]])
-    for sig, what in problems:
-        rep.violation("C02/noise/oversize", "noise write_packets with a payload > 65515 bytes: " + what,
-                      {"kind": "impl-trace", "helper": "noise", "calls": [[[1, "00 * 65516"]]]})
+    # ---- oversize payloads (known finding F9 for the lone 65516-byte packet: written under a header that does not describe it).
+    # Whatever an oversize batch does - a frame the device cannot parse (F9), or a refusal - a refusal must leave the session
+    # usable: nothing written, and the next ordinary frame authenticates under the next unused nonce.
+    for batch_name, batch in (("65516", [(1, bytes(65516))]), ("small+65516", [(7, b"\x08\x01"), (1, bytes(65516))]), ("65535", [(1, bytes(65535))]),
+                              ("70000", [(1, bytes(70000))])):
+        kind, detail = oversize_probe(rng, batch)
+        rep.case(("oversize", batch_name), True, sample={"oversize_batch": batch_name, "outcome": kind, "detail": detail})
+        rep.bump("oversize:" + kind)
+        replay = {"kind": "impl-trace", "helper": "noise", "oversize_batch": batch_name}
+        if kind == "misframed":
+            rep.violation("C02/noise/oversize", "noise write_packets with a payload > 65515 bytes: " + detail, replay)
+        elif kind != "ok":
+            rep.violation("C02/noise/oversize-" + kind, f"noise write_packets, batch {batch_name}: " + detail, replay)
 
     # ---- flow control callbacks of the transport must not delay, merge or reorder writes
     for kind in ("plaintext", "noise"):
